@@ -55,6 +55,7 @@ def run(sc, tier, seed):
         ("JoinMC.tla", "JoinOn_%s.cfg" % t),
         ("JoinMC.tla", "JoinBarrier_%s.cfg" % t),
         ("MultiConsumerMC.tla", "MultiConsumer_%s.cfg" % t),
+        ("JoinBatchMC.tla", "JoinBatch_%s.cfg" % t),
     ]
     # the model runs are independent: run them side by side with the drivers (2 at a time, 4 workers each)
     pool = concurrent.futures.ThreadPoolExecutor(max_workers=2)
